@@ -196,7 +196,10 @@ TEXT = {
           "its root list denotes exactly the real roots of the specialised polynomial and a real v lies in the returned set iff the "
           "(possibly negated) condition holds for the specialised polynomial at v (uses C11_rootsUnder_exact, separate_spec, "
           "samples_spec, sign_at_rat = C10_sign_exact at rational points, sign_const = intermediate value theorem, C12_sweep); "
-          "C12_feasible_exact_zero covers specialisations that vanish identically (identicallyZero_sound). Second tie: the negation and "
+          "C12_feasible_exact_zero covers specialisations that vanish identically (identicallyZero_sound). The comparison itself is "
+          "proved sound: if setMatches accepts, the intervals returned by the library (end points of any value kind, each denoting an "
+          "extended real) contain exactly the reals of the reference set (setMatches_sound, from epMatches_sound = Alg.cmp_sound per end "
+          "point), hence C12_accepted_set_exact: an accepted library set IS the solution set of the constraint. Second tie: the negation and "
           "consistency tables of the model are proved equal to definitions regenerated from src/utils/sign_condition.c by a clang-AST "
           "translator on every run (Props/GenTables: negate_eq, consistent_eq, consistentInterval_eq).",
   "design_ref": "5.12",
